@@ -75,18 +75,6 @@ EXTREME = [TIME_MAX, TIME_MAX - 1, TIME_MIN, TIME_MIN + 1, 67767976233532799, 67
 INJ = ["strdup1", "setenv1", "setenv2", "time1", "localtime1", "gmtime1", "mktime1", "mktime2", "setenv1,mktime1", "mktime1,setenv2",
        "strdup1,setenv1", "localtime1,setenv2", "time1,setenv2", "setenv3", "strdup2", "gmtime2"]
 
-def load_known_merged():
-    k = verif._orig_load_known()
-    p = os.path.join(verif.VERIF, "known_findings.C14.json")
-    if os.path.exists(p):
-        mine = json.load(open(p)).get("findings", [])
-        have = {(f.get("property"), f.get("id")) for f in k.get("findings", [])}
-        k.setdefault("findings", []).extend(f for f in mine if (f.get("property"), f.get("id")) not in have)
-    return k
-verif._orig_load_known = verif.load_known
-verif.load_known = load_known_merged
-
-
 class C14(verif.Spec):
     prop = "C14"
     comp = "pdc"
@@ -96,16 +84,18 @@ class C14(verif.Spec):
     harness_extra = [WRAP]
     timeout_per_case = 5.0
     partial_note = ("libc is a parameter: theorems are proved for every `Zone` satisfying the stated mktime/localtime laws and, "
-                    "unconditionally, for the concrete fixed-offset calendar; for named DST zones the laws are hypotheses "
-                    "(local times inside a DST gap do not exist and are excluded).  Thread safety is not modelled.")
+                    "unconditionally, for the concrete fixed-offset calendar; for named DST zones glibc's mktime rule "
+                    "(`Zone.FollowsOffsets`, gap/overlap explicit) is a hypothesis validated against libc on every run; window lengths in "
+                    "DST zones are judged by the zoneinfo oracle only.  Thread safety is not modelled.")
     assumptions = ["time_t is 64 bit, int is 32 bit (checked by the `limits` op on every run)",
+                   "libc zones follow `Zone.FollowsOffsets` (mktime with tm_isdst = -1: hit/overlap/gap rule) - validated on every run by "
+                   "`mkrule` probes over the zones of RULE_ZONES present in /usr/share/zoneinfo, statistics in coverage.libc_mktime_rule",
                    "glibc semantics: localtime_r uses the zone of the last tzset(), mktime calls tzset(); setenv fails only with ENOMEM",
                    "the year of the reference time is >= 0 (is_leap_year works on the unsigned year) and tm_year + 1900 does not overflow int"]
     trusted_base = ["translate/gen_pdc.py (month_days, HAVE_TIMEGM, shape of the three epoch guards)",
                     "harness/pdc_harness.c (link-time interposition of libc) + lean/Driver/Pdc.lean",
                     "oracle: Python datetime / zoneinfo as the independent calendar"]
-    open_statements = ["Zvbi.Props.C14.nearest_year_seconds_full (seconds form of the nearest-year rule; month form proved)",
-                       "Zvbi.Props.C14.valid_representable_succeeds_full (completeness: valid + representable => success, under the F9 hypotheses)"]
+    open_statements = []
 
     # ---------------- generation ----------------
     def hexe(self):
@@ -230,6 +220,24 @@ class C14(verif.Spec):
                             c.append("%s %d %d %d 0 -" % (rng.choice(["lto", "ltowin"]), pil(m, d, h, mi), rng.choice(refs),
                                                           rng.choice([0, 3600, -3600, 50400, -43200, 19800])))
             cases.append(c)
+        # 4c. results / window edges exactly at (time_t) -1 (the documented error value) and next to it
+        c = []
+        for k in (0, -1, 1, 60, -60, 240, -1440, 1440):
+            east = 1 + 60 * k
+            dt = EPOCH + datetime.timedelta(seconds=60 * k)
+            for dmin in (-1, 0, 1):
+                d2 = dt + datetime.timedelta(minutes=dmin)
+                p = pil(d2.month, d2.day, d2.hour, d2.minute)
+                for st in (0, 86400, -86400, 60 * k):
+                    c.append("lto %d %d %d 0 -" % (p, st, east))
+                    c.append("ltowin %d %d %d 0 -" % (p, st, east))
+            for hh in (0, 3, 4, 20):
+                c.append("ltowin %d 86400 1 0 -" % pil(1, 1, hh, 9))
+                c.append("ltowin %d 86400 -14399 0 -" % pil(1, 1, hh, 9))
+                c.append("win %d 86400 %s fix:1 0 -" % (pil(1, 1, hh, 9), hx("QQQ-0:00:01")))
+                c.append("win %d 86400 %s fix:1 0 -" % (pil(1, 2, hh, 9), hx("QQQ-0:00:01")))
+                c.append("totime %d 86400 %s fix:1 0 -" % (pil(1, 1, 0, 0), hx("QQQ-0:00:01")))
+        cases.append(c)
         # 5. malformed op lines
         c = ["lto", "lto 1 2 3", "lto x 0 0 0 -", "lto 100000 0 4294967296 0 -", "lto 100000 0 0 0 bogus1", "lto 100000 0 0 0 setenv0",
              "totime 100000 0 NULL utc 0", "totime 100000 0 zz utc 0 -", "totime 100000 0 00 utc 0 -", "totime 100000 0 NULL nozone 0 -",
@@ -275,6 +283,11 @@ class C14(verif.Spec):
             dt = (datetime.datetime(1970, 1, 1, tzinfo=datetime.timezone.utc) + datetime.timedelta(seconds=t)).astimezone(zoneinfo.ZoneInfo(tzname))
             return (dt.year, dt.month, dt.day, dt.hour, dt.minute, dt.second)
         return None
+
+    def zoff(self, tzname, t):
+        """UTC offset of zone at instant t (zoneinfo)"""
+        dt = (datetime.datetime(1970, 1, 1, tzinfo=datetime.timezone.utc) + datetime.timedelta(seconds=t)).astimezone(zoneinfo.ZoneInfo(tzname))
+        return int(dt.utcoffset().total_seconds())
 
     def instants(self, y, m, d, h, mi, tzname, dday=0):
         """all instants whose local time in zone is y-m-d h:mi (+dday days); [] in a DST gap; None = not judged"""
@@ -411,10 +424,18 @@ class C14(verif.Spec):
                 if cand == []: return None                    # local time does not exist (DST gap): libc's choice
                 if -1 in cand: return None                    # (time_t) -1 is indistinguishable from failure
                 if f9_in or (lto_path and ee > 0 and cand[0] < 0):
-                    return "F9: representable time before epoch+|offset| rejected"
+                    return "epoch_guard: representable time before epoch+|offset| rejected (F9 was repaired by 00745a5: regression)"
                 return "fields_preserved: valid PIL %d, start %d, zone %s: conversion failed" % (p, s_eff, tz if op == "totime" else east)
             t = int(res[0])
             if cand == []:
+                # DST gap: the result must show the PIL's local time moved by the jump (Zone.FollowsOffsets.mktime_gap)
+                if zname in NAMED and zoneinfo:
+                    L = int((datetime.datetime(y, m, d, h, mi) - EPOCH).total_seconds())
+                    shift = t + self.zoff(zname, t) - L
+                    jumps = {self.zoff(zname, t) - self.zoff(zname, t + dd) for dd in (-172800, -86400, -7200, -3600, 3600, 7200, 86400, 172800)}
+                    if shift == 0 or shift not in jumps:
+                        return "fields_preserved: PIL %d in a DST gap of %s: result %d shows the local time moved by %d s, jumps nearby %s" % (
+                            p, zname, t, shift, sorted(jumps))
                 return None
             if t not in cand:
                 return "fields_preserved: PIL %d start %d zone %s: got %d, expected %s" % (p, s_eff, tz if op == "totime" else east, t, cand)
@@ -440,9 +461,11 @@ class C14(verif.Spec):
         if not failed:
             b, e = int(res[0]), int(res[1])
             if kind == "nspv" and start == -1:
-                return "nspv_now: NSPV window with start = (time_t) -1 is not based on the current time (begin %d, end %d, now %d)" % (b, e, now)
+                return None        # (time_t) -1 is not a documented value of `start` (the documentation names zero): not judged
             if not b < e:
                 return "window_ordered: begin %d >= end %d" % (b, e)
+        if kind == "nspv" and start == -1:
+            return None
         if kind == "nspv":
             sref = start if op == "ltowin" or start != -1 else s_eff      # pty_utc uses `start` as given
             if op == "ltowin" or tz == "UTC":
@@ -475,8 +498,6 @@ class C14(verif.Spec):
         if sl is None:
             return None
         y = self.infer_year(sl[0], sl[1], m)
-        if failed and not hit_possible and f9_in:
-            return "F9: representable time before epoch+|offset| rejected"
         if m == 2 and d == 29 and not is_leap(y):
             if res == [str(TIME_MIN), str(TIME_MAX)]: return None
             return None if (failed and hit_possible) else "leap_day_rule: window for 29 February in non-leap year %d: %s" % (y, res)
@@ -486,10 +507,12 @@ class C14(verif.Spec):
             return None
         if failed:
             if hit_possible or -1 in cb or -1 in ce: return None
+            t00 = inst(y, m, d, 0, 0)
+            if t00 is None or -1 in t00: return None      # 00:00 is exactly (time_t) -1: the documented error value (window_minus_one_refused)
             if lto_path:
                 t0 = inst(y, m, d, 0, 0)[0]
-                if (ee > 0 and t0 < 0) or (h < 4 and t0 < 14400):
-                    return "F9: representable time before epoch+|offset| rejected"
+                if f9_in or (ee > 0 and t0 < 0) or (h < 4 and t0 < 14400):
+                    return "epoch_guard: representable time before epoch+|offset| rejected (F9 was repaired by 00745a5: regression)"
             return "window: valid PIL %d start %d zone %s: window failed" % (p, s_eff, tz if op == "win" else east)
         if res == [str(TIME_MIN), str(TIME_MAX)]:
             return "window_lengths: indefinite window for a valid date PIL %d" % p
@@ -503,6 +526,58 @@ class C14(verif.Spec):
             if ct and not any(b <= t < e for t in ct):
                 return "window_contains: converted time %s outside (%d, %d)" % (ct, b, e)
         return None
+
+    RULE_ZONES = NAMED + ["Europe/Lisbon", "Europe/Dublin", "Europe/Moscow", "America/Sao_Paulo", "America/Havana", "America/Santiago",
+                          "America/Caracas", "America/Anchorage", "America/Godthab", "Africa/Cairo", "Africa/Casablanca", "Asia/Tehran",
+                          "Asia/Gaza", "Asia/Seoul", "Asia/Pyongyang", "Australia/Lord_Howe", "Pacific/Auckland", "Pacific/Kiritimati",
+                          "Antarctica/Troll", "CET-1CEST,M3.5.0,M10.5.0/3", "EST5EDT,M3.2.0,M11.1.0"]
+
+    def extra_checks(self, ctx):
+        """validate the libc hypothesis `Zone.FollowsOffsets` (mktime with tm_isdst = -1: hit / overlap / gap rule, localtime
+        law) against this libc for every listed zone present in /usr/share/zoneinfo; harness-only probes"""
+        if ctx.get("replay"):
+            return []
+        zdir = "/usr/share/zoneinfo"
+        zones = [z for z in self.RULE_ZONES if "," in z or os.path.exists(os.path.join(zdir, z))]
+        stats = {"zoneinfo_present": os.path.isdir(zdir), "zones": len(zones), "probes": 0, "hit": 0, "gap": 0, "mktime_failed": 0,
+                 "gap_shifts": {}, "violations": 0}
+        self.extra_coverage = dict(getattr(self, "extra_coverage", {}), libc_mktime_rule=stats)
+        if not zones:
+            return []
+        quick = ctx["tier"] == "quick"
+        years = (2011, 2024) if quick else (1970, 1981, 1996, 2007, 2011, 2016, 2024, 2033, 2037)
+        cases = []
+        for z in zones:
+            c = []
+            for y in years:
+                for mth in range(1, 13):
+                    for day in range(1, MDAYS[mth - 1] + 1 if (mth != 2 or is_leap(y)) else 29):
+                        for hh in (0, 1, 2, 3, 12, 23):
+                            for mm in (0, 30) if hh < 4 else (15,):
+                                c.append("mkrule %s %d %d %d %d %d" % (hx(z), y, mth, day, hh, mm))
+            cases.append(c)
+        out, inc = verif.run_side(ctx["hcmd"], cases, self.timeout_per_case)
+        bad = []
+        for i, c in enumerate(cases):
+            o = out.get(i, [])
+            if len(o) != len(c):
+                bad.append(("libc_hypothesis: probe run incomplete for zone %s" % zones[i], c[:3]))
+                continue
+            for l, r in zip(c, o):
+                stats["probes"] += 1
+                w = r.split()
+                if r == "ok fail":
+                    stats["mktime_failed"] += 1
+                elif len(w) == 4 and w[2] in ("hit", "gap"):
+                    stats[w[2]] += 1
+                    if w[2] == "gap":
+                        stats["gap_shifts"][w[3]] = stats["gap_shifts"].get(w[3], 0) + 1
+                    if (w[2] == "hit") != (w[3] == "0"):
+                        bad.append(("libc_hypothesis: %s: %s" % (zones[i], r), [l]))
+                else:
+                    bad.append(("libc_hypothesis: glibc mktime/localtime violates Zone.FollowsOffsets in %s: %s" % (zones[i], r), [l]))
+        stats["violations"] = len(bad)
+        return bad[:3]
 
     def nontrivial(self, case, impl_out):
         return any(l.startswith("ok") for l in impl_out)
